@@ -257,6 +257,7 @@ type c15Case struct {
 	Args      []string `json:"args"`
 	FailAt    int      `json:"fail_at"`
 	Desc      bool     `json:"desc,omitempty"` // map ranges iterate in descending key order
+	Split     bool     `json:"split,omitempty"` // after the failed call the retry is made label by label, one call each
 }
 
 // c15One runs one case. It returns (kind, detail, number of Delete calls the fault-free run makes).
@@ -466,6 +467,44 @@ func c15One(cc c15Cell, cs c15Case) (string, string, int, int) {
 	// recovery: the fault is cleared, the same call must remove everything that is left
 	e.failAt = -1
 
+	if cs.Split {
+		// ... and so must one call per label: every key is still indexed under EVERY label it was given
+		done := map[string]bool{}
+
+		for _, l := range cs.Args {
+			if done[l] {
+				continue
+			}
+
+			done[l] = true
+			bef := e.total()
+			cntL, errL := e.idx.InvalidateByLabels(ctx, l)
+			ops++
+
+			if errL != nil {
+				return "retry-error", fmt.Sprintf("retry with label %s after recovery failed: %v", l, errL), ncalls, ops
+			}
+
+			if cntL != bef-e.total() {
+				return "count-retry", fmt.Sprintf("retry with label %s returned count %d, entries actually removed %d", l, cntL, bef-e.total()), ncalls, ops
+			}
+
+			j := strings.Index("ABC", l)
+
+			for i := 0; i < cc.NKeys; i++ {
+				if cs.Incidence>>(uint(3*i+j))&1 == 1 && !allFalse(e.present(nameOf(i), c15Key(i))) {
+					return "incomplete-after-split-retry", fmt.Sprintf("after a failed InvalidateByLabels(%s) and recovery, InvalidateByLabels(%s) returned nil but key %d, which carries that label, is still cached (it was dropped from the label's index)", strings.Join(cs.Args, ","), l, i), ncalls, ops
+				}
+			}
+		}
+
+		if k, d := check("after failure + retry label by label"); k != "" {
+			return k + "-after-retry", d, ncalls, ops
+		}
+
+		return "", "ok-after-split-retry", ncalls, ops
+	}
+
 	cnt2, err2, p2 := call()
 	ops++
 
@@ -552,6 +591,10 @@ func c15Seq(cc c15Cell, env *Env) CellResult {
 
 				for j := 0; j < n; j++ {
 					run(c15Case{Incidence: inc, Args: a, FailAt: j, Desc: desc})
+
+					if len(a) > 1 {
+						run(c15Case{Incidence: inc, Args: a, FailAt: j, Desc: desc, Split: true})
+					}
 				}
 			}
 
